@@ -1250,14 +1250,31 @@ func (x *Exec) assumeLoopInv(st *State, fr *Frame, head *ssa.BasicBlock) *loopCu
 	return cut
 }
 
-// havocLoop forgets everything the loop may modify.
+// havocLoop forgets everything the loop may modify. Locations whose base is a loop-invariant local
+// (e.g. fields of the *repeat held in a variable assigned before the loop) are forgotten at that reference
+// only; everything else falls back to forgetting the whole field array.
 func (x *Exec) havocLoop(st *State, fr *Frame, head *ssa.BasicBlock) {
 	body := x.loops(fr.fn).blocks[head]
-	ms := newModset()
+	// pass 1: locals assigned in the loop
+	allocs := newModset()
 	for b := range body {
 		for _, in := range b.Instrs {
-			x.instrMods(fr.fn, in, ms, 0)
+			if s, ok := in.(*ssa.Store); ok {
+				if al, ok := rootAlloc(s.Addr); ok && !al.Heap {
+					allocs.allocs[al] = true
+				}
+			}
 		}
+	}
+	ms := newModset()
+	var precise []func()
+	for b := range body {
+		for _, in := range b.Instrs {
+			x.instrModsLoop(st, fr, in, ms, allocs, &precise)
+		}
+	}
+	for a := range allocs.allocs {
+		ms.allocs[a] = true
 	}
 	c := x.loopContract(fr)
 	if c != nil {
@@ -1267,11 +1284,17 @@ func (x *Exec) havocLoop(st *State, fr *Frame, head *ssa.BasicBlock) {
 			ms.all = false
 			ms.keys = map[string]bool{}
 			ms.ghosts = map[string]bool{}
+			ms.elems, ms.maps = false, false
+			precise = nil
 			for _, l := range locs {
 				if l == "*" {
 					ms.all = true
 				} else if _, isGhost := x.ghostSort(l); isGhost {
 					ms.ghosts[l] = true
+				} else if l == "elems" {
+					ms.elems = true
+				} else if l == "maps" {
+					ms.maps = true
 				} else {
 					ms.keys[l] = true
 				}
@@ -1287,6 +1310,167 @@ func (x *Exec) havocLoop(st *State, fr *Frame, head *ssa.BasicBlock) {
 		}
 	}
 	x.havocModset(st, ms)
+	if !ms.all {
+		for _, f := range precise {
+			f()
+		}
+	}
+}
+
+// staticVal evaluates an operand at the loop head when its value cannot change inside the loop.
+func (x *Exec) staticVal(st *State, fr *Frame, v ssa.Value, allocs *modset) (res Val, ok bool) {
+	defer func() {
+		if r := recover(); r != nil {
+			res, ok = nil, false
+		}
+	}()
+	switch n := v.(type) {
+	case *ssa.Const, *ssa.Global, *ssa.Function:
+		return x.val(st, fr, v), true
+	case *ssa.Parameter:
+		r, has := fr.regs[n]
+		return r, has
+	case *ssa.Alloc:
+		r, has := fr.regs[n]
+		return r, has
+	case *ssa.UnOp:
+		if n.Op != token.MUL {
+			return nil, false
+		}
+		if al, isAlloc := n.X.(*ssa.Alloc); isAlloc && !al.Heap && !allocs.allocs[al] {
+			p, has := fr.regs[al]
+			if !has {
+				return nil, false
+			}
+			return x.load(st, p, n.Type()), true
+		}
+		return nil, false
+	case *ssa.FieldAddr:
+		b, good := x.staticVal(st, fr, n.X, allocs)
+		if !good {
+			return nil, false
+		}
+		return x.fieldAddr(st, b, n.X.Type(), n.Field), true
+	case *ssa.FreeVar:
+		return x.val(st, fr, v), true
+	}
+	return nil, false
+}
+
+func (x *Exec) instrModsLoop(st *State, fr *Frame, in ssa.Instruction, ms *modset, allocs *modset, precise *[]func()) {
+	switch i := in.(type) {
+	case *ssa.Store:
+		if al, ok := rootAlloc(i.Addr); ok && !al.Heap {
+			return
+		}
+		if fa, ok := i.Addr.(*ssa.FieldAddr); ok {
+			if a, good := x.staticVal(st, fr, fa, allocs); good {
+				if fp, isFP := a.(FieldPtr); isFP {
+					*precise = append(*precise, func() { st.havocField(fp.Ref, fp.S, fp.SN, fp.Idx) })
+					return
+				}
+			}
+		}
+		x.instrMods(fr.fn, in, ms, 0)
+	case *ssa.MapUpdate:
+		if m, good := x.staticVal(st, fr, i.Map, allocs); good {
+			if mt, isT := m.(Term); isT {
+				mty := i.Map.Type().Underlying().(*types.Map)
+				*precise = append(*precise, func() { x.havocMapAt(st, mty, mt) })
+				return
+			}
+		}
+		ms.maps = true
+	case *ssa.Call:
+		cc := &i.Call
+		var c *Contract
+		var key string
+		var fn *ssa.Function
+		var args []ssa.Value
+		if cc.IsInvoke() {
+			key = ifaceKey(cc, x.pkg.Pkg)
+			c = x.specs.Contracts[key]
+			args = append([]ssa.Value{cc.Value}, cc.Args...)
+		} else if f, ok := cc.Value.(*ssa.Function); ok {
+			fn = f
+			if o := f.Origin(); o != nil {
+				fn = o
+			}
+			key = funcKey(fn, x.pkg.Pkg)
+			c = x.specs.Contracts[key]
+			args = cc.Args
+		} else if _, isBuiltin := cc.Value.(*ssa.Builtin); !isBuiltin {
+			if _, isClosure := cc.Value.(*ssa.MakeClosure); !isClosure {
+				c = x.callbackContract(cc.Value.Type())
+				args = append([]ssa.Value{cc.Value}, cc.Args...)
+			}
+		}
+		if c == nil || strings.HasSuffix(key, "$bound") {
+			x.instrMods(fr.fn, in, ms, 0)
+			return
+		}
+		names := x.paramNames(c, fn, cc.Signature(), len(args))
+		env := &specEnv{x: x, st: st, vars: map[string]Val{}, where: "loop modifies of " + key}
+		for k, n := range names {
+			if k < len(args) {
+				if v, good := x.staticVal(st, fr, args[k], allocs); good {
+					env.vars[n] = v
+				}
+			}
+		}
+		for _, loc := range c.Modifies {
+			loc := loc
+			if loc == "*" {
+				ms.all = true
+				continue
+			}
+			if _, isGhost := x.ghostSort(loc); isGhost {
+				ms.ghosts[loc] = true
+				continue
+			}
+			var lv Val
+			good := func() (ok bool) {
+				defer func() {
+					if r := recover(); r != nil {
+						ok = false
+					}
+				}()
+				lv = x.evalLoc(env, loc, c)
+				return true
+			}()
+			if good {
+				switch l := lv.(type) {
+				case FieldPtr:
+					*precise = append(*precise, func() { st.havocField(l.Ref, l.S, l.SN, l.Idx) })
+					continue
+				case wholeStructLoc:
+					*precise = append(*precise, func() {
+						for k := 0; k < l.S.NumFields(); k++ {
+							st.havocField(l.Ref, l.S, l.SN, k)
+						}
+					})
+					continue
+				case elemsLoc:
+					*precise = append(*precise, func() { st.havocElems(l.arr, l.elem) })
+					continue
+				}
+			}
+			// fallback: conservative
+			tmp := &Contract{HasMod: true, Modifies: []string{loc}}
+			x.contractMods(tmp, ms)
+		}
+	default:
+		x.instrMods(fr.fn, in, ms, 0)
+	}
+}
+
+func (x *Exec) havocMapAt(st *State, mt *types.Map, m Term) {
+	has, val, ln, ks, vs := x.mapKeys(st, mt)
+	st.heapWrite(has, sArr(ks, sBool), m, st.fresh("hv_maphas", sArr(ks, sBool), nil))
+	st.heapWrite(val, sArr(ks, vs), m, st.fresh("hv_mapval", sArr(ks, vs), nil))
+	l := st.fresh("hv_maplen", sBV(64), nil)
+	st.assume(app(sBool, nil, "bvsle", bv64(0), l))
+	st.heapWrite(ln, sBV(64), m, l)
 }
 
 type modset struct {
